@@ -100,6 +100,12 @@ def segment(rng, prev, new):
         # an overwritten stale patch first, then the right bytes
         a, b = runs[0]
         rec.insert(0, (a, bytes((x + 1) % 256 for x in new[a:b])))
+    elif style >= 0.8 and runs and runs[0][1] - runs[0][0] >= 2:
+        # ranges sharing their start offset but not their length: the whole run with a wrong head, then the head corrected
+        a, b = runs[0]
+        h = rng.randrange(1, b - a)
+        wrong = bytes((x + 7) % 256 for x in new[a:a + h]) + new[a + h:b]
+        rec[0:1] = [(a, wrong), (a, new[a:a + h])]
     return rec
 
 def rand_frames(rng, fs, cc, nframes):
